@@ -1,5 +1,5 @@
 """C13 — replaced content: sizing rules, painted rectangle, embedded once."""
-from extract import raster_embed_graph, replaced_consts
+from extract import raster_embed_graph, replaced_consts, svg_not_inherited
 from harness import c13_branches
 from harness import c13_docs
 from harness import c13_embed
@@ -13,7 +13,7 @@ from vlib.framework import PropCheck
 
 class C13(PropCheck):
     id = 'C13'
-    extractors = (replaced_consts.generate, raster_embed_graph.generate)
+    extractors = (replaced_consts.generate, raster_embed_graph.generate, svg_not_inherited.generate)
     modules = ('WpModel.Props.C13', 'WpModel.Props.C13b', 'WpModel.Witness.C13')
     trusted_base = (
         'modelled, not verified: layout/replaced.py (all functions), min_max.py decorators, block_level_width, '
@@ -44,6 +44,15 @@ class C13(PropCheck):
                          tags=list(tags) + c13_branches.branches(line, out))
             sec.add = add
             return sec
+        sec = section(
+            'regressions', 'corpus first: the inputs of the repaired findings (fixed: lines of known_findings.txt) '
+            'run on the real code through the ordinary protocol lines (absolute_replaced in a rendered document, '
+            'rotate_pillow_image, get_image_from_uri on unwritable modes, preserve_ratio under an ancestor with '
+            'preserveAspectRatio, layout_background_layer with a zero-sized round tile); a repaired defect that '
+            'comes back is a disagreement judged by the oracle; non-trivial = all')
+        for line, out, meta, nontrivial, tags in self.regression_cases():
+            sec.add(line, out, meta=meta, nontrivial=nontrivial, tags=tags)
+
         sec = section(
             'object-size', 'SVGImage.get_intrinsic_size on generated <svg> roots; default_image_sizing / contain / cover on Fractions, intrinsic (w,h,ratio) each '
             'possibly None, plus an adversarial stream; non-trivial = a specified size is auto/None resp. a ratio exists')
@@ -110,12 +119,15 @@ class C13(PropCheck):
 
         sec = section(
             'svg-viewport', 'the real svg.utils.preserve_ratio on real SVG trees (root / nested <svg>, <marker>, explicit '
-            'viewBox as <image> passes it; all preserveAspectRatio values incl. malformed ones; malformed viewBox), the '
+            'viewBox as <image> passes it, each also under an ancestor with its own preserveAspectRatio and viewBox; '
+            'all preserveAspectRatio values incl. malformed ones; malformed viewBox), Node.cascade on chains of nested '
+            'elements (viewport attributes, other non-inherited ones, inherited presentation attributes, `inherit`), the '
             'two cm operators of the real SVG.draw on a real Stream, and svg.images.image with a stub referenced image '
             '(clip box, drawn size, fitting cm); non-trivial = a viewBox is in effect')
         for k in range(run.n(1200, 24000)):
             adversarial = k % 3 == 0
-            cases = [c13_svg.case_preserve_ratio(rng, adversarial), c13_svg.case_svg_draw(rng, adversarial)]
+            cases = [c13_svg.case_preserve_ratio(rng, adversarial), c13_svg.case_svg_draw(rng, adversarial),
+                     c13_svg.case_svg_attr(rng, adversarial), c13_svg.case_svg_image_element(rng, adversarial)]
             cases += c13_svg.case_svg_image(rng, adversarial)
             for line, out, meta, nontrivial, tags in cases:
                 sec.add(line, out, meta=meta, nontrivial=nontrivial, tags=tags)
@@ -126,7 +138,10 @@ class C13(PropCheck):
             'image-orientation, loaded by the real get_image_from_uri and embedded by the real '
             'RasterImage.get_x_object: normalised mode, JPEG/PNG path, pass-through or re-encoding, invert_colors, '
             'ColorSpace, Filter, Colors, SMask, Decode, and the decoded RGBA of the stream + mask against Pillow\'s '
-            'convert("RGBA") of the source; non-trivial = transparency info or a mode other than RGB / L')
+            'convert("RGBA") of the source; RasterImage._get_png_data on byte files made of the PNG signature and random '
+            'chunks (several / empty IDATs, ancillary chunks, truncated and over-long tails, length overruns) and on '
+            'files written by Pillow: the returned bytes; non-trivial = transparency info or a mode other than RGB / L, '
+            'resp. several IDATs or a malformed file')
         for k in range(run.n(2500, 40000)):
             line, out, meta, nontrivial, tags = c13_embed.case_embed(rng)
             sec.add(line, out, meta=meta, nontrivial=nontrivial, tags=tags)
@@ -135,14 +150,25 @@ class C13(PropCheck):
                 line, out, meta, nontrivial, tags = case(rng)
                 sec.add(line, out, meta=meta, nontrivial=nontrivial, tags=tags)
 
+        for k in range(run.n(1500, 30000)):
+            if k % 5 == 4:
+                line, out, meta = c13_embed.real_png_streams(rng)
+                sec.add(line, out, meta=meta, nontrivial=True, tags=['pngdata:pillow'])
+            else:
+                line, out, meta, nontrivial, tags = c13_embed.case_png_data(rng, adversarial=(k % 3 == 0))
+                sec.add(line, out, meta=meta, nontrivial=nontrivial, tags=tags)
+
         sec = section(
             'documents', 'generated documents: 1-4 <img>/<object>/<embed> (inline or block, ltr/rtl) showing '
             'Pillow-made PNGs with width/height/min/max in {auto,px,%}, every object-fit, object-position, '
-            'image-resolution, image-rendering, and 0-2 boxes with a background image (size/position/repeat/'
+            'image-resolution, image-rendering, opacity, and 0-2 boxes with a background image (size/position/repeat/'
             'origin/clip); compared: used sizes and margins of the laid-out boxes, replacedbox_layout of the real '
             'box, the `cm … Do` operators, clip rectangles, group translations and tiling-pattern dictionaries of '
-            'the uncompressed PDF, and the image XObjects of the file in creation order; non-trivial = size '
-            'resolution / object-fit other than fill / an image used more than once')
+            'the uncompressed PDF, the image XObjects of the file in creation order, and the /Resources dictionaries of '
+            'the page, of every transparency group (no-repeat backgrounds, images with opacity < 1) and of every tiling '
+            'pattern, names in dictionary order, read back from the file (every `/name Do` of a content stream must be '
+            'defined in the resources of that very stream); non-trivial = size resolution / object-fit other than '
+            'fill / an image used more than once')
         for k in range(run.n(350, 7000)):
             for line, out, meta, nontrivial, tags in c13_docs.case_document(rng):
                 sec.add(line, out, meta=meta, nontrivial=nontrivial, tags=tags)
@@ -155,6 +181,10 @@ class C13(PropCheck):
 
     def judge(self, d):
         """The clause itself, stated on the implementation's output (harness/c13_oracle.py)."""
+        meta = d.get('meta') if isinstance(d.get('meta'), dict) else {}
+        if d['line'].startswith('docok') and d['impl'] != 'ok' and 'doc' in meta:
+            # the generated document no longer reads back as designed: state the property on it again
+            return c13_docs.judge_document(meta['doc'])
         return c13_oracle.judge(d['line'], d['impl'])
 
     def search(self, run, failures):
@@ -181,12 +211,14 @@ class C13(PropCheck):
         cases = (real.case_default_sizing, real.case_constraint, real.case_replacedbox_layout,
                  real.case_used_size, real.case_absolute_replaced, real.case_dedupe, real.case_raster_draw,
                  real.case_draw_replacedbox, real.case_svg_intrinsic, c13_embed.case_embed, real.case_pref_width,
-                 c13_embed.case_orientation, c13_embed.case_orientation_angle)
+                 c13_embed.case_orientation, c13_embed.case_orientation_angle, c13_embed.case_png_data)
         for k in range(run.n(4000, 40000)):
             adversarial = k % 5 == 0
             batch = [case(rng, adversarial)[:3] for case in cases]
             batch += [c[:3] for c in real.case_backgrounds(rng, adversarial)]
-            batch += [c13_svg.case_preserve_ratio(rng, adversarial)[:3], c13_svg.case_svg_draw(rng, adversarial)[:3]]
+            batch += [c13_svg.case_preserve_ratio(rng, adversarial)[:3], c13_svg.case_svg_draw(rng, adversarial)[:3],
+                      c13_svg.case_svg_attr(rng, adversarial)[:3],
+                      c13_svg.case_svg_image_element(rng, adversarial)[:3]]
             batch += [c[:3] for c in c13_svg.case_svg_image(rng, adversarial)]
             for line, out, meta in batch:
                 run.search_stats['evaluations'] += 1
@@ -201,14 +233,21 @@ class C13(PropCheck):
                 return found
         return found
 
+    @staticmethod
+    def regression_cases():
+        """The committed inputs of the repaired findings (corpus/C13/*.json with a `fixed` key), as protocol cases."""
+        cases = []
+        cases += c13_docs.regression_abs_replaced_ratio_only()
+        cases += c13_embed.regression_orientation_ccw()
+        cases += c13_embed.regression_unwritable_mode()
+        cases += c13_svg.regression_par_inherited()
+        cases += real.regression_background_round_zero_size()
+        return cases
+
     def finding_replays(self):
         docs.quiet()
-        return {'abs-replaced-ratio-only-width': c13_docs.finding_abs_replaced_ratio_only,
-                'grey16-embedded-as-rgb8': c13_embed.finding_grey16,
-                'image-orientation-rotates-ccw': c13_embed.finding_orientation_ccw,
-                'background-no-repeat-axis-wraps': c13_docs.finding_no_repeat_axis_wraps,
-                'svg-preserveaspectratio-inherited': c13_svg.finding_par_inherited,
-                'unwritable-mode-crash': c13_embed.finding_unwritable_mode}
+        return {'grey16-embedded-as-rgb8': c13_embed.finding_grey16,
+                'background-no-repeat-axis-wraps': c13_docs.finding_no_repeat_axis_wraps}
 
     def replay(self, data):
         docs.quiet()
@@ -218,12 +257,24 @@ class C13(PropCheck):
         meta = inp.get('meta') if isinstance(inp.get('meta'), dict) else {}
         if 'doc' in meta:
             return c13_docs.judge_document(c13_docs.revive(meta['doc']))
-        if str(meta.get('fn', '')).startswith(('preserve_ratio', 'SVG.draw', 'svg.images.image')):
+        if meta.get('fn') == 'rotate_pillow_image':
+            orientation = meta['orientation']
+            line, out, _ = c13_embed.run_orientation(
+                meta['rows'], orientation if isinstance(orientation, str) else tuple(orientation))
+            return c13_oracle.judge(line, out)
+        if meta.get('fn') == 'absolute_replaced' and 'html' in meta:
+            for line, out, m, _, _ in c13_docs.regression_abs_replaced_ratio_only():
+                if m['html'] == meta['html']:
+                    return c13_oracle.judge(line, out)
+            return None
+        if str(meta.get('fn', '')).startswith(('preserve_ratio', 'SVG.draw', 'svg.images.image', 'svg.Node.cascade')):
             for line, out in c13_svg.replay(meta):
                 what = c13_oracle.judge(line, out)
                 if what:
                     return what
             return None
+        if meta.get('fn') == '_get_png_data':
+            return c13_oracle.judge(*c13_embed.run_png_data(bytes(meta['file'])))
         if meta.get('fn') == 'RasterImage':
             return c13_oracle.judge(*c13_embed.replay_embed(meta))
         if 'line' in inp:
@@ -239,6 +290,10 @@ PROP = C13()
 MANIFEST = {
     'design_ref': 'DESIGN.md §4 C13',
     'technique': 'Lean 4 theorems over hand-written executable models of layout/replaced.py (every function), the '
+                 'document-level composition resolve_percentages -> inline_replaced_box_layout, the resource scopes '
+                 'built by Stream.add_image / add_group / add_pattern, RasterImage._get_png_data (PNG chunk walk), '
+                 'svg Node.cascade on the regenerated NOT_INHERITED_ATTRIBUTES, svg/images.py image, the raster '
+                 'branch of get_image_from_uri, the '
                  'min_max.py decorators, block_level_width, preferred.py replaced min/max-content widths, '
                  'layout_background_layer / draw_background_image arithmetic, Stream.add_image + _use_references, '
                  'RasterImage.__init__ / get_x_object decisions, RasterImage.draw / draw_replacedbox, '
@@ -256,14 +311,19 @@ MANIFEST = {
             'the cm matrices of draw_replacedbox, SMask <=> alpha / transparency for every Pillow mode (also on the '
             'regenerated whole-domain table), pass-through of JPEG / PNG bytes without lossy option, the SVG '
             'viewBox -> viewport mapping for every preserveAspectRatio (none / meet / slice x 9 alignments), '
-            'image-orientation (size swap, half turns = css-images-3), intrinsic min <= max contribution. '
+            'image-orientation (size swap, every quarter turn = css-images-3, clockwise), intrinsic min <= max '
+            'contribution, every content stream (page, group, pattern) names each image it paints in its own '
+            'resources, the FlateDecode data is exactly the concatenated IDAT payload of the PNG, viewport attributes '
+            'of SVG elements are never inherited, the loader never raises on an image Pillow opened, an <img> with '
+            'initial sizing properties is pw/res x ph/res and a specified width is clamped to the resolved min/max. '
             'Decoded pixels are compared with Pillow on tiny images of every mode (correspondence, not proof).',
     'note': 'Trusted: Lean kernel, the AST translator of py/extract/replaced_consts.py, the graph translator '
             'py/extract/raster_embed_graph.py, the mock-object harnesses and harness.exactq.Q (float literals taken at '
             'the exact value of the double), Pillow as the reference decoder. Not modelled: JPEG pixel values under '
             'lossy options, the dpi thumbnail path, SVG painting below the root transform, gradients, EXIF-driven '
             'from-image orientation, RasterImage ratio = inf. Document level uses dyadic lengths and power-of-two '
-            'image sides. Known findings (partial theorems + witnesses): abs-replaced-ratio-only-width, '
-            'grey16-embedded-as-rgb8, unwritable-mode-crash, background-no-repeat-axis-wraps, '
-            'svg-preserveaspectratio-inherited, image-orientation-rotates-ccw.',
+            'image sides. Known findings (partial theorems + witnesses): grey16-embedded-as-rgb8, '
+            'background-no-repeat-axis-wraps. Repaired and kept as regression cases + theorems (section '
+            '`regressions`): abs-replaced-ratio-only-width, unwritable-mode-crash, svg-preserveaspectratio-inherited, '
+            'image-orientation-rotates-ccw, background-round-zero-size.',
 }
